@@ -5,6 +5,7 @@ import random
 from fractions import Fraction
 
 from . import families as F
+from . import histories as H
 
 ID = "C03"
 HEAVY = False
@@ -74,6 +75,13 @@ def tasks(tier, seed):
                 K1 = [S for S in F.extras(n1) if S not in X]
                 K2 = [S for S in F.extras(n2) if S not in X]
                 out.append(_seq_task([(n1, K1), (n2, K2), (n1, K1)], f"x-unknown-{n1}-{n2}"))
+    # seeded operation histories on one object per computer (state kept outside the value table, see harness/histories.py)
+    for n in (3, 4, 5):
+        fam, _ = F.family(n, tier, seed)
+        pool = fam if n == 3 else F.sample([k for k in fam if len(k) < len(F.extras(n))], {4: 48, 5: 8}[n] if tier == "quick" else {4: 256, 5: 48}[n], seed, "c03ops")
+        for K in pool:
+            for j in range((3 if n == 3 else 1) if tier == "quick" else (6 if n == 3 else 2)):
+                out.append({"key": f"ops{j}/n{n}/K={','.join(map(str, K))}", "ops": f"ops{j}", "steps": [[n, K]]})
     # interleavings
     rnd = random.Random(f"c03/{seed}")
     pools = {n: F.family(n, tier, seed)[0] for n in (3, 4, 5)}
@@ -95,6 +103,11 @@ def _vals(inp, i, n):
 
 
 def setup(params, inp, lg):
+    if params.get("ops"):
+        n, K = params["steps"][0]
+        for who in ("c", "r"):
+            for nm in H.stale_names(H.plan(n, K, params["ops"]), prefix=f"h{who}"):
+                inp.real(nm)
     for i, (n, K) in enumerate(params["steps"]):
         _vals(inp, i, n)
         known = set(F.minimal(n)) | set(K)
@@ -115,11 +128,14 @@ def scenario(pk, params, inp):
         res = {}
         for who, name in (("c", "superadditive_cached"), ("r", "superadditive")):
             g = pk.game.IncompleteCooperativeGame(n, pk.bounds.BOUNDS[name])
-            g.set_known_values([v[S] for S in known], [C(S) for S in known])
-            for S in range(2 ** n):
-                if S not in set(known):
-                    g.set_lower_bound(inp.real(f"s{i}{who}L{S}"), C(S))
-                    g.set_upper_bound(inp.real(f"s{i}{who}U{S}"), C(S))
+            if params.get("ops"):
+                g = H.apply(pk, g, v, H.plan(n, K, params["ops"]), inp, prefix=f"h{who}")
+            else:
+                g.set_known_values([v[S] for S in known], [C(S) for S in known])
+                for S in range(2 ** n):
+                    if S not in set(known):
+                        g.set_lower_bound(inp.real(f"s{i}{who}L{S}"), C(S))
+                        g.set_upper_bound(inp.real(f"s{i}{who}U{S}"), C(S))
             g.compute_bounds()
             if who == "c" and i % 2 == 1:
                 g.compute_bounds()       # repeated invocation on one game object
@@ -164,5 +180,9 @@ def test_vectors(params):
                 for who in ("c", "r"):
                     d[f"s{i}{who}L{S}"] = Fraction(rnd.randint(-40, 40), 4)
                     d[f"s{i}{who}U{S}"] = Fraction(rnd.randint(-40, 40), 4)
+        for who in ("c", "r"):
+            for k in range(12):
+                d[f"h{who}{k}L"] = Fraction(rnd.randint(-40, 40), 4)
+                d[f"h{who}{k}U"] = Fraction(rnd.randint(-40, 40), 4)
         vecs.append(d)
     return vecs
